@@ -37,7 +37,12 @@ func GenerateAnte(r *rng.R, steps int) []string {
 	g.emit("setsparams %s =1,=137", g.fee)
 	for _, c := range contracts[:2] {
 		for _, t := range tokens[:3] {
-			g.emit("setowner %s %s %s", e(c), e(t), rng.Pick(r, accs))
+			// mostly accounts that sign transactions of their own later on (tenant admins, depositors)
+			o := rng.Pick(r, accs[:6])
+			if r.P(1, 4) {
+				o = rng.Pick(r, accs)
+			}
+			g.emit("setowner %s %s %s", e(c), e(t), o)
 		}
 	}
 	// the first configured fee denomination ("setl") in some hands, so that an offer can cover more than one configured denomination
@@ -93,7 +98,10 @@ func (g *anteG) step() {
 	}
 	if r.P(1, 25) {
 		// governance changes the settlement gas prices in mid-history: later transactions pay the new price
-		g.emit("setprices %s", rng.Pick(r, []string{"setl:0.0003,uusdc:1", "setl:0.00015,uusdc:2", "setl:0.0001,uusdc:1", "setl:0.00025,uusdc:0.5", "uusdc:1,setl:0.0003", "uusdc:2,setl:0.0001"}))
+		g.emit("setprices %s", rng.Pick(r, []string{"setl:0.0003,uusdc:1", "setl:0.00015,uusdc:2", "setl:0.0001,uusdc:1", "setl:0.00025,uusdc:0.5", "uusdc:1,setl:0.0003", "uusdc:2,setl:0.0001", "setl:0.00005,uusdc:1", "setl:0.00001,uusdc:0.00005"}))
+	}
+	if r.P(1, 20) {
+		g.ownerOfAnotherTenant()
 	}
 	switch r.Weighted([]int{8, 8, 5, 7, 3, 3, 5}) {
 	case 0:
@@ -133,7 +141,7 @@ func (g *anteG) settleMsg() (string, uint64) {
 	case 3, 4, 5:
 		req := fmt.Sprintf("q%d", t.nreq)
 		t.nreq++
-		chain := rng.Pick(r, []string{"1", "137", world.ThisChain, "999"})
+		chain := rng.Pick(r, []string{"1", "137", world.ThisChain, world.ThisChain, "999"})
 		t.pending = append(t.pending, req)
 		return fmt.Sprintf("record(%s~%d~%s~%d~=uusdc~%s~%s~%s)", admin, t.id, e(req), 1+r.N(40), e(chain), e(rng.Pick(r, contracts[:2])), e(rng.Pick(r, tokens[:3]))), 10000
 	case 6:
@@ -147,6 +155,30 @@ func (g *anteG) settleMsg() (string, uint64) {
 		return fmt.Sprintf("addadmin(%s~%d~%s)", admin, t.id, na), 10000
 	}
 	return fmt.Sprintf("setperiod(%s~%d~%d)", admin, t.id, r.N(4)), 10000
+}
+
+// ownerOfAnotherTenant: tenant 1 records a payment for a local NFT that belongs to the admin account of another tenant, between two
+// transactions of that account for its own tenant. What the first tenant records is no business of the second one's transactions.
+func (g *anteG) ownerOfAnotherTenant() {
+	r := g.r
+	if len(g.tenants) < 2 {
+		who := rng.Pick(r, []string{"a2", "a3", "a4"})
+		g.tenants = append(g.tenants, &tenant{id: len(g.tenants) + 1, admins: []string{who}, denom: "uusdc", method: "native"})
+		g.tx("auto", "-", "2000000000000:uusdc", 1000000100000, fmt.Sprintf("createtenant(%s~=uusdc~%d)", who, 1+r.N(3)))
+	}
+	a, b := g.tenants[0], g.tenants[1]
+	if r.P(1, 2) {
+		a, b = b, a
+	}
+	x := b.admins[0]
+	c, t := rng.Pick(r, contracts[:2]), rng.Pick(r, tokens[:3])
+	g.emit("setowner %s %s %s", e(c), e(t), x)
+	g.tx("auto", "-", "10000:uusdc", 10000, fmt.Sprintf("deposit(%s~%d~%d~=uusdc)", x, b.id, 1+r.N(50)))
+	req := fmt.Sprintf("q%d", a.nreq)
+	a.nreq++
+	a.pending = append(a.pending, req)
+	g.tx("auto", "-", "10000:uusdc", 10000, fmt.Sprintf("record(%s~%d~%s~%d~=uusdc~%s~%s~%s)", a.admins[0], a.id, e(req), 1+r.N(40), e(world.ThisChain), e(c), e(t)))
+	g.tx("auto", "-", "10000:uusdc", 10000, fmt.Sprintf("deposit(%s~%d~%d~=uusdc)", x, b.id, 1+r.N(50)))
 }
 
 // settlementTx: one to three settlement messages under varied offered fees and gas limits.
@@ -224,6 +256,9 @@ func (g *anteG) oracleMsg(v int, feeder string) string {
 	r := g.r
 	rs := g.roundStart()
 	vt := fmt.Sprintf("v%d", v)
+	if r.P(1, 6) {
+		vt = fmt.Sprintf("V%d", v) // the upper-case bech32 spelling of the operator address: legal, and a different string
+	}
 	switch r.N(5) {
 	case 0, 1:
 		salt := fmt.Sprintf("s%d", r.N(100))
@@ -285,6 +320,20 @@ func (g *anteG) oracleTx() {
 		g.emit("sim signers=%s payer=- fee=- gas=200000 msgs=consent(v%d~%s)", st, v, st)
 		rs := g.roundStart()
 		g.tx("auto", "-", "-", 200000, fmt.Sprintf("prevote(%s~v%d~%s~%d)", st, v, e(VoteHash("sim", "-")), rs))
+		return
+	}
+	if r.P(1, 12) {
+		// a delegation given under the upper-case spelling of the validator's address, replaced by an ordinary one; the superseded account
+		// then votes for the validator under either spelling
+		v := r.N(world.NVal)
+		f1, f2 := rng.Pick(r, accs[:5]), rng.Pick(r, accs[5:])
+		g.tx("auto", "-", "-", 200000, fmt.Sprintf("consent(V%d~%s)", v, f1))
+		g.tx("auto", "-", "-", 200000, fmt.Sprintf("consent(v%d~%s)", v, f2))
+		g.former[v], g.feeder[v] = f1, f2
+		rs := g.roundStart()
+		for _, vt := range []string{fmt.Sprintf("V%d", v), fmt.Sprintf("v%d", v)} {
+			g.tx("auto", "-", "-", 200000, fmt.Sprintf("prevote(%s~%s~%s~%d)", f1, vt, e(VoteHash("sp", "-")), rs))
+		}
 		return
 	}
 	v := r.N(world.NVal)
